@@ -133,6 +133,17 @@ theorem checkJust_some_of_bad {C : Crypto} {keys : List Key} {ctx : Bool} {duty 
       rw [verifyMsg_of_ok this] at he
       cases he
 
+theorem checkJust_of_ok {C : Crypto} {keys : List Key} {duty : Duty} :
+    ∀ {js : List Core}, (∀ j ∈ js, CoreOk C keys j ∧ (coreView j).duty = duty) →
+      checkJust C keys false duty js = none
+  | [], _ => rfl
+  | x :: xs, h => by
+    obtain ⟨hok, hd⟩ := h x (List.mem_cons_self ..)
+    unfold checkJust
+    simp only [verifyMsg_of_ok hok, hd]
+    simp
+    exact checkJust_of_ok (fun j hj => h j (List.mem_cons_of_mem _ hj))
+
 /-! ### values -/
 
 /-- every binding of the map is a value whose recomputed hash is its key. -/
@@ -405,6 +416,10 @@ theorem find_setInst_same (l : List Inst) (i : Inst) :
       rw [List.find?_cons]
       simp [hne, ih]
 
+theorem find_setInst_eq (l : List Inst) (i : Inst) (d : Duty) (hd : i.duty = d) :
+    (setInst l i).find? (fun x => x.duty = d) = some i := by
+  subst hd; exact find_setInst_same l i
+
 theorem find_setInst_other (l : List Inst) (i : Inst) (d : Duty) (hd : d ≠ i.duty) :
     (setInst l i).find? (fun x => x.duty = d) = l.find? (fun x => x.duty = d) := by
   induction l with
@@ -463,6 +478,10 @@ theorem getOrNew_buf_mem {s : State} {d : Duty} {m : MsgView} (h : m ∈ (s.getO
   split at h
   · rename_i i hi; exact ⟨i, List.mem_of_find?_eq_some hi, h⟩
   · cases h
+
+theorem bufLen_eq (s : State) (d : Duty) : s.bufLen d = (s.getOrNew d).buf.length := by
+  unfold State.bufLen State.getOrNew
+  cases s.find d <;> rfl
 
 /-- the three possible outcomes of `handle`. -/
 theorem handle_cases (C : Crypto) (keys : List Key) (cap : Nat) (env : Env) (s : State) (req : Option Wire) :
